@@ -475,7 +475,7 @@ def gen_storage_case(rng, kind, size):
                 else:
                     nextval[0] += 1
                     val = nextval[0]
-                if rng.random() < 0.15 and sim.get(oid):
+                if rng.random() < 0.15 and sim.get(oid) and cur(oid)[1] is not None:
                     val = cur(oid)[1]      # byte-identical to what is committed now (e.g. +5 and +5)
                 ops.append('store %d %d %d %s' % (w, oid, serial, L.rec_wire(cls[oid], 0, val)))
                 c = cur(oid)
@@ -637,10 +637,16 @@ class DbWorld:
 
 
 def commit_outcome(tm):
-    from ZODB.POSException import ConflictError, ReadConflictError
+    from ZODB.POSException import ConflictError, POSKeyError, ReadConflictError
     try:
         tm.commit()
         return 'ok'
+    except POSKeyError:
+        # checkCurrentSerialInTransaction of an object that was un-created meanwhile: getTid raises
+        # POSKeyError; the commit fails and stores nothing (judged like a conflict when an un-creation
+        # is part of the case, flagged otherwise)
+        tm.abort()
+        return 'KeyError'
     except ReadConflictError:
         tm.abort()
         return 'ReadConflict'
@@ -868,8 +874,9 @@ def oracle_db(res):
     P = [('C03:lock-not-exclusive', p) for p in res['lock_problems']]
     chains, cls = res['chains'], res['cls']
     commits = [e for e in res['log'] if e[0] == 'commit']
+    any_deleted = any(e[0] == 'delete' for e in res['log'])
     for e in commits:
-        if e[2].startswith('Other'):
+        if e[2].startswith('Other') or (e[2] == 'KeyError' and not any_deleted):
             P.append(('C03:commit-failed-oddly', 'commit of %s raised %s (neither success nor a conflict error)' % (e[1], e[2])))
     ok = sorted((e for e in commits if e[2] == 'ok' and e[3] is not None), key=lambda e: e[3])
     deleted = {(e[1], e[2]) for e in res['log'] if e[0] == 'delete'}      # (object, tid) of un-creations
